@@ -358,6 +358,9 @@ pub mod verif {
         leaf_cache: LeafCache,
         ln_bump: u32,
         bbn_bump: u32,
+        /// the heads of the two free lists as the last `update` returned them in `SyncData`
+        ln_freelist_pn: Option<u32>,
+        bbn_freelist_pn: Option<u32>,
     }
 
     fn open_scratch(path: &Path, pages: u64) -> std::io::Result<Arc<File>> {
@@ -406,13 +409,15 @@ pub mod verif {
                 leaf_cache,
                 ln_bump,
                 bbn_bump: bbn_first + nodes as u32,
+                ln_freelist_pn: None,
+                bbn_freelist_pn: None,
             })
         }
 
-        /// The real [`super::update`] with `workers` workers on the current tree: both stores are opened over the
-        /// scratch files with the current allocation frontiers and EMPTY free lists (new pages are `bump`,
-        /// `bump + 1`, …; released pages are never reused by a later call), the post-I/O task is awaited, the
-        /// returned index becomes the current tree.
+        /// The real [`super::update`] with `workers` workers on the current tree: both stores are opened with the real
+        /// `Store::open` over the scratch files, with the allocation frontiers and the free-list heads the previous
+        /// call returned in `SyncData` (the way a reopen does: `FreeList::read` from the file) — pages released by an
+        /// earlier call are handed out again; the post-I/O task is awaited, the returned index becomes the current tree.
         pub fn update(
             &mut self,
             env: &StageEnv,
@@ -420,10 +425,21 @@ pub mod verif {
             workers: usize,
         ) -> std::io::Result<UpdateOut> {
             let (page_pool, io_pool, thread_pool) = env.parts();
-            let leaf_store =
-                Store::verif_with_free_list(self.ln_file.clone(), PageNumber(self.ln_bump), vec![])?;
-            let bbn_store =
-                Store::verif_with_free_list(self.bbn_file.clone(), PageNumber(self.bbn_bump), vec![])?;
+            let to_io = |e: anyhow::Error| std::io::Error::new(std::io::ErrorKind::Other, e.to_string());
+            let leaf_store = Store::open(
+                page_pool,
+                self.ln_file.clone(),
+                PageNumber(self.ln_bump),
+                self.ln_freelist_pn.map(PageNumber),
+            )
+            .map_err(to_io)?;
+            let bbn_store = Store::open(
+                page_pool,
+                self.bbn_file.clone(),
+                PageNumber(self.bbn_bump),
+                self.bbn_freelist_pn.map(PageNumber),
+            )
+            .map_err(to_io)?;
             let changeset: imbl::OrdMap<Key, ValueChange> = changeset
                 .iter()
                 .map(|(k, v)| {
@@ -455,6 +471,9 @@ pub mod verif {
             self.index = index;
             self.ln_bump = sync_data.ln_bump;
             self.bbn_bump = sync_data.bbn_bump;
+            let head = |pn: u32| if PageNumber(pn).is_nil() { None } else { Some(pn) };
+            self.ln_freelist_pn = head(sync_data.ln_freelist_pn);
+            self.bbn_freelist_pn = head(sync_data.bbn_freelist_pn);
             Ok(UpdateOut {
                 record,
                 ln_bump: sync_data.ln_bump,
